@@ -71,11 +71,14 @@ def Val.toInt? : Val → Option Int
   | .negZero => some 0
   | _ => Option.none
 
-/-- `int(ceil(x / k.))` for a number `x` -/
+/-- `int(ceil(x / k.))` for a number `x` (integers: exact integer arithmetic) -/
 def ceilDiv (v : Val) (k : Nat) : Except Exc Nat :=
-  match v.rat? with
-  | some r => .ok ((r / natToRat k).ceil).toNat
-  | none => .error .typeError
+  match v with
+  | .int i => .ok (if i ≤ 0 then 0 else (i.toNat + k - 1) / k)
+  | _ =>
+    match v.rat? with
+    | some r => .ok ((r / natToRat k).ceil).toNat
+    | Option.none => .error .typeError
 
 /-- `x == 0` -/
 def Val.isZero : Val → Bool
@@ -585,7 +588,7 @@ def writeTimes (T : Tabs) (o : OutputTimes) : Except Exc (List Str) :=
     let l1 ← writeValueLine (← T.get c!"output_times1") o.d
     let n ← match o.d.get (c!"num_times_specified") with | some v => pure v | none => .error .keyError
     let nlines ← ceilDiv n 8
-    let ts ← if nlines = 0 then pure [] else match o.time with | some t => pure t | none => .error .keyError
+    let ts ← match o.time with | some t => pure t | none => if nlines = 0 then pure [] else .error .keyError
     let ls ← writeChunks (← T.get c!"output_times2") 8 ts ts.length nlines
     pure ([nl (c!"TIMES"), l1] ++ ls)
 
